@@ -1,172 +1,17 @@
-import Lean.Data.Json
-import ColaVerif.Basic.GRat
-import ColaVerif.Model.Matmat
-import ColaVerif.Model.Wf
-import ColaVerif.Model.Bound
-import ColaVerif.Model.Index
+import ColaVerif.DriverLib
 
 /-!
-Line-protocol driver: one JSON case per input line, one JSON answer per output line.
+Line-protocol driver of the operator-tree family (C01, C02, C03, C05, C20): one JSON case per
+input line, one JSON answer per output line.
 Run with `lake env lean --run Driver.lean < cases.jsonl`.
 -/
 
 open Lean (Json)
 
-abbrev E := Except String
-
-def jInt (j : Json) : E Int :=
-  match j.getInt? with | .ok n => pure n | .error e => throw s!"int expected: {e}"
-def jNat (j : Json) : E Nat := do
-  let n ← jInt j
-  if n < 0 then throw "nat expected" else pure n.toNat
-def jArr (j : Json) : E (Array Json) :=
-  match j with | .arr a => pure a | _ => throw s!"array expected, got {j.compress}"
-def jStr (j : Json) : E String :=
-  match j with | .str s => pure s | _ => throw "string expected"
-def jBool (j : Json) : E Bool :=
-  match j with | .bool b => pure b | _ => throw "bool expected"
-
-def jQ (j : Json) : E Rat :=
-  match j.getObjVal? "q" with
-  | .ok (.arr #[n, d]) => do
-      let dn ← jNat d
-      if dn == 0 then throw "zero denominator" else pure (mkRat (← jInt n) dn)
-  | _ => do pure ((← jInt j : Int) : Rat)
-
-def jZ (j : Json) : E GRat :=
-  match j with
-  | .arr #[a, b] => do pure ⟨← jQ a, ← jQ b⟩
-  | _ => do pure ⟨← jQ j, 0⟩
-
-def jDt (j : Json) : E DType := do
-  match ← jStr j with
-  | "f32" => pure .f32 | "f64" => pure .f64 | "c64" => pure .c64 | "c128" => pure .c128
-  | s => throw s!"dtype {s}"
-
-def jAnn (j : Json) : E Ann := do
-  match ← jStr j with
-  | "SelfAdjoint" => pure .selfAdjoint | "PSD" => pure .psd
-  | "Stiefel" => pure .stiefel | "Unitary" => pure .unitary
-  | s => throw s!"ann {s}"
-
-def jVec (j : Json) : E (Array GRat) := do (← jArr j).mapM jZ
-def jMat (j : Json) : E (Array (Array GRat)) := do (← jArr j).mapM jVec
-
-def vecF (v : Array GRat) : Nat → GRat := fun i => v.getD i 0
-def matF (m : Array (Array GRat)) : MatF GRat := fun i j => (m.getD i #[]).getD j 0
-
-def jOptInt (j : Json) : E (Option Int) :=
-  match j with | .null => pure none | _ => do pure (some (← jInt j))
-
-def jIx (j : Json) : E Ix := do
-  match j.getObjVal? "s" with
-  | .ok (.arr #[a, b, c]) => pure (.slice (← jOptInt a) (← jOptInt b) (← jOptInt c))
-  | _ =>
-    match j.getObjVal? "a" with
-    | .ok l => do pure (.arr (← (← jArr l).toList.mapM jInt))
-    | _ => throw s!"ix: {j.compress}"
-
-partial def jOp (j : Json) : E (Op GRat) := do
-  let a ← jArr j
-  let tag ← jStr (a.getD 0 .null)
-  let arg (i : Nat) : Json := a.getD i .null
-  let rest : E (List (Op GRat)) := (a.toList.drop 1).mapM jOp
-  match tag with
-  | "dense" => pure (.dense (← jDt (arg 1)) (← jNat (arg 2)) (← jNat (arg 3)) (matF (← jMat (arg 4))))
-  | "tri" => pure (.tri (← jDt (arg 1)) (← jNat (arg 2)) (← jNat (arg 3)) (← jBool (arg 4)) (matF (← jMat (arg 5))))
-  | "sparse" => do
-      let ents ← (← jArr (arg 4)).toList.mapM fun e => do
-        let t ← jArr e
-        pure ((← jNat (t.getD 0 .null)), (← jNat (t.getD 1 .null)), (← jZ (t.getD 2 .null)))
-      pure (.sparse (← jDt (arg 1)) (← jNat (arg 2)) (← jNat (arg 3)) ents)
-  | "scalar" => pure (.scalar (← jDt (arg 1)) (← jZ (arg 2)) (← jNat (arg 3)))
-  | "eye" => pure (.eye (← jDt (arg 1)) (← jNat (arg 2)))
-  | "prod" => pure (.prod (← rest))
-  | "sum" => pure (.sum (← rest))
-  | "kron" => pure (.kron (← rest))
-  | "kronsum" => pure (.kronsum (← rest))
-  | "bdiag" => do
-      let ms ← (← jArr (arg 1)).toList.mapM jOp
-      let mu ← (← jArr (arg 2)).toList.mapM jNat
-      pure (.bdiag ms mu)
-  | "diag" => do
-      let v ← jVec (arg 2)
-      pure (.diag (← jDt (arg 1)) v.size (vecF v))
-  | "tridiag" => do
-      let be ← jVec (arg 3)
-      pure (.tridiag (← jDt (arg 1)) be.size (vecF (← jVec (arg 2))) (vecF be) (vecF (← jVec (arg 4))))
-  | "T" => pure (.transpose (← jOp (arg 1)))
-  | "H" => pure (.adjoint (← jOp (arg 1)))
-  | "slice" => pure (.sliced (← jOp (arg 1)) (← jIx (arg 2)) (← jIx (arg 3)))
-  | "perm" => pure (.perm (← jDt (arg 1)) (← (← jArr (arg 2)).toList.mapM jNat))
-  | "concat" => do
-      let ax ← jNat (arg 1)
-      pure (.concat (ax == 1) (← (a.toList.drop 2).mapM jOp))
-  | "house" => do
-      let v ← jVec (arg 2)
-      pure (.house (← jDt (arg 1)) v.size (vecF v) (← jZ (arg 3)))
-  | "generic" => pure (.generic (← jOp (arg 1)))
-  | "ann" => pure (.annot (← jAnn (arg 1)) (← jOp (arg 2)))
-  | t => throw s!"unknown op tag {t}"
-
-def showQ (q : Rat) : String := if q.den == 1 then toString q.num else s!"\"{q.num}/{q.den}\""
-def showZ (z : GRat) : String := s!"[{showQ z.re},{showQ z.im}]"
-def showMat (r c : Nat) (m : MatF GRat) : String :=
-  "[" ++ ",".intercalate ((List.range r).map fun i =>
-    "[" ++ ",".intercalate ((List.range c).map fun j => showZ (m i j)) ++ "]") ++ "]"
-def maxAbsMat (r c : Nat) (m : MatF GRat) : String :=
-  showQ ((List.range r).foldl (fun acc i => (List.range c).foldl (fun acc j => max acc (m i j).absL1) acc) 0)
-def showAnns (s : AnnSet) : String :=
-  "[" ++ ",".intercalate ((AnnSet.canon s).map fun a => "\"" ++ a.toString ++ "\"") ++ "]"
-
-def showStrs (l : List String) : String :=
-  "[" ++ ",".intercalate (l.map fun s => "\"" ++ s ++ "\"") ++ "]"
-
-def header (A : Op GRat) : String :=
-  s!"\"rows\":{A.rows},\"cols\":{A.cols},\"dtype\":\"{A.dtype.toString}\",\"anns\":{showAnns A.anns},\"wf\":{A.wf},\"clauses\":{showStrs A.clauses}"
-
-def absMat (m : MatF GRat) : MatF GRat := fun i j => Op.absZ (m i j)
-
-def kindName : Op GRat → String
-  | .dense .. => "dense" | .tri .. => "tri" | .sparse .. => "sparse" | .scalar .. => "scalar"
-  | .eye .. => "eye" | .prod _ => "prod" | .sum _ => "sum" | .kron _ => "kron" | .kronsum _ => "kronsum"
-  | .bdiag .. => "bdiag" | .diag .. => "diag" | .tridiag .. => "tridiag" | .transpose _ => "T"
-  | .adjoint _ => "H" | .sliced .. => "slice" | .perm .. => "perm" | .concat .. => "concat"
-  | .house .. => "house" | .generic _ => "generic" | .annot .. => "ann"
-
-/-- kind tree of an operator: [kind, annotations, children…] (declaration wrappers are not nodes) -/
-partial def skel (A : Op GRat) : String :=
-  let c := A.core
-  let kids : List (Op GRat) := match c with
-    | .prod Ms => Ms | .sum Ms => Ms | .kron Ms => Ms | .kronsum Ms => Ms | .bdiag Ms _ => Ms
-    | .concat _ Ms => Ms | .transpose B => [B] | .adjoint B => [B] | .sliced B _ _ => [B]
-    | _ => []   -- `generic` keeps only the product function of its argument, not the operator
-  "[" ++ ",".intercalate (["\"" ++ kindName c ++ "\"", showAnns A.anns] ++ kids.map skel) ++ "]"
-
-def showVec (n : Nat) (v : Nat → GRat) : String :=
-  "[" ++ ",".intercalate ((List.range n).map fun i => showZ (v i)) ++ "]"
-
-def jGIx (j : Json) : E GIx := do
-  match j.getObjVal? "i" with
-  | .ok v => pure (.int (← jInt v))
-  | _ =>
-    match j.getObjVal? "l" with
-    | .ok l => do pure (.list (← (← jArr l).toList.mapM jInt))
-    | _ => do pure (.ix (← jIx j))
-
-def showRes (r : GRes GRat) : String :=
-  match r with
-  | .scalar z => "{\"kind\":\"scalar\",\"value\":" ++ showZ z ++ "}"
-  | .vec n v => "{\"kind\":\"vec\",\"value\":" ++ showVec n v ++ "}"
-  | .op B => "{\"kind\":\"op\",\"rows\":" ++ toString B.rows ++ ",\"cols\":" ++ toString B.cols
-      ++ ",\"value\":" ++ showMat B.rows B.cols B.td.f ++ ",\"skel\":" ++ skel B ++ ",\"anns\":" ++ showAnns B.anns ++ "}"
-  | .err e => "{\"kind\":\"err\",\"value\":\"" ++ e ++ "\"}"
-
-def parseTower (s : String) : List Bool := s.toList.map (fun ch => ch == 'T')
-
 def handle (j : Json) : E String := do
   let id := (j.getObjVal? "id").toOption.getD .null
   let call ← jStr ((j.getObjVal? "call").toOption.getD .null)
+  if call == "expr" then return (← handleExpr j)
   let A ← jOp ((j.getObjVal? "op").toOption.getD .null)
   let pre := s!"\"id\":{id.compress},{header A}"
   match call with
@@ -210,23 +55,4 @@ def handle (j : Json) : E String := do
       pure ("{" ++ pre ++ s!",\"code\":{showRes code},\"spec\":{specS},\"absbound\":{bound}" ++ "}")
   | c => throw s!"unknown call {c}"
 
-partial def loop (h : IO.FS.Stream) (out : IO.FS.Stream) : IO Unit := do
-  let line ← h.getLine
-  if line.isEmpty then return ()
-  let t := line.trimAscii.toString
-  if t.isEmpty then loop h out else
-  let ans := match Json.parse t with
-    | .error e => "{\"error\":" ++ (Json.str s!"parse: {e}").compress ++ "}"
-    | .ok j =>
-      match handle j with
-      | .ok s => s
-      | .error e =>
-        let id := (j.getObjVal? "id").toOption.getD .null
-        "{\"id\":" ++ id.compress ++ ",\"error\":" ++ (Json.str e).compress ++ "}"
-  out.putStrLn ans
-  loop h out
-
-def main : IO Unit := do
-  let out ← IO.getStdout
-  loop (← IO.getStdin) out
-  out.flush
+def main : IO Unit := driverMain handle
